@@ -40,8 +40,10 @@ int _vnadata_update_format_string(vnadata_internal_t *vdip)
     char *new_string = NULL;
     char *cur;
 
-    free((void *)vdip->vdi_format_string);
-    vdip->vdi_format_string = NULL;
+    /*
+     * Build the new string before releasing the old one so that a
+     * failed allocation leaves the existing string in place.
+     */
     if (vdip->vdi_format_count != 0) {
 	if ((new_string = malloc(vdip->vdi_format_count *
 			(MAX_FORMAT + 1))) == NULL) {
@@ -62,7 +64,8 @@ int _vnadata_update_format_string(vnadata_internal_t *vdip)
 	    *cur++ = ',';
 	}
 	*cur = '\000';
-	vdip->vdi_format_string = new_string;
     }
+    free((void *)vdip->vdi_format_string);
+    vdip->vdi_format_string = new_string;
     return 0;
 }
